@@ -255,6 +255,20 @@ def _age_lemmas() -> List[Obligation]:
         v = z3.ToReal(v) if v.sort() == z3.IntSort() else v
         return z3.And(z3.Implies(value(e), v == 0), z3.Implies(z3.Not(value(e)), v * 1000 == left)), base + nb
 
+    def b_absolute() -> Any:
+        # the thresholds as the properties state them: full TTL, half TTL (C03 / C13), quarter TTL (C11), percent of TTL (C10)
+        created, ttl = z3.Int('created'), z3.Int('ttl')
+        pct = z3.Int('percent')
+        e, base = outcomes('is_expired', now=now)
+        st, _ = outcomes('is_stale', now=now)
+        rc, _ = outcomes('is_recent', now=now)
+        x, _ = outcomes('get_expiration_time', percent=pct)
+        xv = value(x)
+        xv = z3.ToReal(xv) if xv.sort() == z3.IntSort() else xv
+        goal = z3.And(value(e) == (created + 1000 * ttl <= now), value(st) == (created + 500 * ttl <= now), value(rc) == (created + 250 * ttl > now),
+                      xv == z3.ToReal(created + 10 * pct * ttl))
+        return goal, base + nb + [pct >= 0, pct <= 100]
+
     def replay(w: Dict[str, Any]) -> List[str]:
         from zeroconf._dns import DNSPointer
 
@@ -271,10 +285,14 @@ def _age_lemmas() -> List[Obligation]:
             out.append('expired record has remaining TTL')
         if not r.is_expired(n) and r.get_remaining_ttl(n) * 1000 != r.created + 1000 * r.ttl - n:
             out.append('remaining TTL is not (created + 1000 ttl - now) / 1000')
+        if r.is_expired(n) != (r.created + 1000 * r.ttl <= n) or r.is_stale(n) != (r.created + 500 * r.ttl <= n) or r.is_recent(n) != (r.created + 250 * r.ttl > n):
+            out.append('is_expired / is_stale / is_recent are not the full / half / quarter TTL thresholds')
+        if r.get_expiration_time(w.get('percent', 0)) != r.created + 10 * w.get('percent', 0) * r.ttl:
+            out.append('get_expiration_time(p) is not created + p percent of the TTL')
         return out
 
     items = [('expired implies stale', b_expired_stale), ('stale excludes recent', b_stale_not_recent),
-             ('is_expired agrees with get_expiration_time(100)', b_expiry_agrees), ('remaining TTL', b_remaining)]
+             ('is_expired agrees with get_expiration_time(100)', b_expiry_agrees), ('remaining TTL', b_remaining), ('full / half / quarter / percent thresholds', b_absolute)]
     return [Obligation(f'age-arithmetic[{n}]', lemma(n, b), 'age-arithmetic', {}, kind='smt', timeout=70, replay=replay) for n, b in items]
 
 
